@@ -32,6 +32,10 @@ type conn struct {
 	reader   *bufio.Reader
 	writer   *bufio.Writer
 	writerMu sync.Mutex // shared lock across all ResponseWriter's to prevent write data races
+
+	// disablePanicRecovery turns off recovering from panics in the goroutines
+	// serving the connection's requests
+	disablePanicRecovery bool
 }
 
 // newConn will create a new Conn from an accepted net.Conn which will be used
@@ -137,6 +141,16 @@ func (c *conn) serveRequests() error {
 					c.logger.Debug("requestsWg done", "op", op, "conn", c.connID, "requestID", w.requestID)
 					c.requestsWg.Done()
 				}()
+				if !c.disablePanicRecovery {
+					// requests are served in their own goroutine, so a panic
+					// has to be caught here: we don't want it to crash the
+					// server if handling a single request causes a panic
+					defer func() {
+						if rec := recover(); rec != nil {
+							c.logger.Error("Caught panic while serving request", "op", op, "conn", c.connID, "requestID", w.requestID, "conn/req", fmt.Sprintf("%+v", rec))
+						}
+					}()
+				}
 				c.router.serve(w, r)
 			}()
 		}
